@@ -227,6 +227,11 @@ func runC17(c *fw.Case) {
 			cells[i] = model.StrP(declared[[]int{0, n - 1, n / 2}[rng.Intn(3)]])
 		}
 	}
+	// ids: ascending, or smallest first / largest last with the ones in between shuffled
+	endsFixed := rows >= 4 && rng.Intn(3) == 0
+	if endsFixed {
+		rng.Shuffle(rows-2, func(a, b int) { ids[1+a], ids[1+b] = ids[1+b], ids[1+a] })
+	}
 	if rng.Intn(10) == 0 {
 		for i := range cells {
 			cells[i] = cells[0]
@@ -261,6 +266,11 @@ func runC17(c *fw.Case) {
 	dq := qf
 	if path != "json" {
 		dq, _ = model.Derive(rng, qf, meta, rng.Intn(3), false)
+		if endsFixed && rng.Intn(2) == 0 {
+			// sorting on the id leaves the first and the last row where they are and permutes the rows in between
+			dq = qf.Sort(qframe.Order{Column: model.IDCol})
+			c.Count("frames_sorted_with_both_ends_fixed", 1)
+		}
 	}
 	if rng.Intn(4) == 0 && dq.Len() > 0 {
 		// the enum column as the key column of an aggregated frame (one row per distinct value, null included):
